@@ -377,7 +377,7 @@ pub fn encode_zoom_section(
         bytes.put_f32(f64_to_f32(item.summary.sum_squares))?;
 
         proof {
-            assert(bytes@ == put_zoom_rec(b0, *item));
+            assert(bytes@ == put_zoom_rec(b0, *item)); 
         }
     }
 
